@@ -20,4 +20,18 @@ Section RP.
     - now apply iter_proj.
     - clear. revert s0. induction k as [|k IH]; intro s0; simpl; [reflexivity|]. apply IH.
   Qed.
+
+  (* any number of restarts in a row: run n1 steps, write the file, rebuild from it, run n2 steps, write, rebuild, ...; `reload` is
+     "write the file and rebuild from it" (a failed rebuild is excluded by the hypothesis: every reload restores the projection) *)
+  Variable reload : S -> S.
+  Fixpoint chain (segs : list nat) (s : S) : S :=
+    match segs with nil => s | cons n r => chain r (reload (iter_steps step n s)) end.
+  Lemma iter_add k n s : iter_steps step (k + n) s = iter_steps step n (iter_steps step k s).
+  Proof. revert s. induction k as [|k IH]; intro s; simpl; [reflexivity|]. apply IH. Qed.
+  Theorem chained_restarts : (forall s, proj (reload s) = proj s) ->
+    forall segs s0 s0', proj s0' = proj s0 -> proj (chain segs s0') = proj (iter_steps step (List.list_sum segs) s0).
+  Proof.
+    intro R. induction segs as [|n r IH]; intros s0 s0' H; simpl; [exact H|].
+    rewrite iter_add. apply IH. rewrite R. apply iter_proj. exact H.
+  Qed.
 End RP.
